@@ -176,6 +176,8 @@ PROPS = {
                 technique="TLA+ specification of RFC 4180 + ReadCSV configuration semantics (Csv.tla) + TLC trace validation",
                 rule="random documents x configurations x read schedules; non-trivial = a ReadCSV event on a document of >4 bytes; distinct by (document, configuration, schedule, result digest)"),
     "C13": dict(level="model_checking", nontrivial=nt_c13,
+                mc=[dict(name="CsvWrite", module="CsvWrite.tla", cfg="CsvWriteMC.cfg", timeout=900),
+                    dict(name="CsvWriteEmit", module="CsvWrite.tla", cfg="CsvWriteEmit.cfg", emit=True, id_base=1000000)],
                 text="Frames however derived, with strings over arbitrary bytes except CR and floats over all exponent classes, subnormals, infinities, -0 and NaN, are written by the real ToCSV with every "
                      "writer option and read back by the real ReadCSV with the frame's types (and enum values) declared, both EmptyNull settings, under random read fragmentations. TLC checks two laws: "
                      "Denote(bytes written) = header + strconv texts of the cells (the writer against the grammar, no reader involved), and the frame read back = NullRule(original) with identical cells "
@@ -183,6 +185,10 @@ PROPS = {
                 note=TV_NOTE, technique="TLA+ specification (Csv.tla ToCsvOK, CsvFrameSem, NullRule) + TLC trace validation",
                 rule="random frames x writer options x EmptyNull x read schedules; non-trivial = a ToCSV event or a read-back event; distinct by (arguments, result digest)"),
     "C14": dict(level="model_checking", nontrivial=nt_c14,
+                mc=[dict(name="JsonEsc", module="JsonEsc.tla", cfg="JsonEscMC.cfg", timeout=900),
+                    dict(name="JsonEscPinD9", module="JsonEsc.tla", cfg="JsonEscPinD9.cfg", expect_violation="RoundTrips"),
+                    dict(name="JsonEscEmit", module="JsonEsc.tla", cfg="JsonEscEmit.cfg", emit=True, id_base=1000000),
+                    dict(name="JsonEscDeep", module="JsonEsc.tla", cfg="JsonEscDeep.cfg", tier="thorough", timeout=3000, heap="20g")],
                 text="Frames with strings and column names over arbitrary bytes (control characters, quotes, backslashes, U+2028/2029, multi-byte and malformed UTF-8) and finite or NaN floats over all "
                      "exponent classes are written by the real ToJSON; TLC recognises the bytes with the RFC 8259 automaton of spec/JsonG.tla (number and string grammar, UTF-8 validity), decodes them and "
                      "requires one object per row in row order, keys = column names in column order, values = cells (ints and floats as the strconv text, NaN/null as null, strings byte-equal after "
@@ -277,7 +283,10 @@ PROPS = {
                      "pairwise distinct input rows, pairwise different on the key, and their number equals the number of key classes.",
                 note=TV_NOTE, technique="TLA+ specification (Rel.tla DistinctPost) + TLC trace validation of harness executions",
                 rule="random frames with controlled key cardinality; non-trivial = the result has >=2 rows; distinct by (arguments, result digest)"),
-    "C03": dict(level="model_checking", nontrivial=nt_c03, cover=True, cover_files=["internal/sort/sorter.go"],
+    "C03": dict(level="model_checking", nontrivial=nt_c03, cover=True,
+                mc=[dict(name="SortMC", module="SortMC.tla", cfg="SortMC.cfg", timeout=900),
+                    dict(name="SortEmit", module="SortMC.tla", cfg="SortEmit.cfg", emit=True, id_base=1000000),
+                    dict(name="SortDeep", module="SortMC.tla", cfg="SortDeep.cfg", tier="thorough", timeout=3000)], cover_files=["internal/sort/sorter.go"],
                 text="Every Sort call of the generated scenarios (row counts across the sorter's regimes 0..14, 39..42, 97, 300, up to 5000; tie density from "
                      "all-equal to all-distinct; 1..3 keys with Reverse/NullLast over all column types; quicksort-killer inputs built at run time by McIlroy's "
                      "adversary against the repository's own internal/sort) is executed on the real library and TLC checks SortPost (spec/Rel.tla): the "
